@@ -164,5 +164,12 @@ func (r *Remote) Call(ctx context.Context, result interface{}, method string, pa
 	if err != nil {
 		return err
 	}
+	if resp.Response == nil {
+		// Reply with an id but neither result nor error.
+		return &ErrResponse{
+			Code:    ErrCodeInvalidRequest,
+			Message: "received malformed response",
+		}
+	}
 	return resp.UnmarshalResult(result)
 }
